@@ -13,6 +13,7 @@ import time
 
 from harness import vlib
 from harness import c19lib as L
+from harness import c19sites as S
 
 THEOREMS = ["C19_trace_partial", "C19_trace_refuted", "C19_codec_union_refuted", "C19_mixin_once", "C19_context",
             "C19_union_context_refuted", "C19_de_trace_partial", "C19_de_post_once", "C19_codec_subclass_refuted",
@@ -22,6 +23,11 @@ THEOREMS = ["C19_trace_partial", "C19_trace_refuted", "C19_codec_union_refuted",
 # ---------------------------------------------------------------------------
 # generators
 # ---------------------------------------------------------------------------
+# the tie to the source: hook call sites read from builder.py (kernel K49) = the model's method bodies
+SITE_THEOREMS = ["C19_K49_to_dict_sites", "C19_K49_to_dict_is_model", "C19_K49_pack_mixin", "C19_K49_pack_codec",
+                 "C19_K49_trace_mixin", "C19_K49_trace_codec", "C19_K49_from_dict_sites", "C19_K49_from_dict_is_model",
+                 "C19_K49_unpack_dc", "C19_K49_from_dict_dispatcher", "C19_K49_de_trace", "C19_K49_declared_hook"]
+
 KINDS = ["dict", "dict", "json", "orjson", "msgpack", "yaml", "toml", "plain"]
 CODECS = ["basic", "json", "orjson", "msgpack", "yaml", "toml"]
 
@@ -698,7 +704,16 @@ def run(ctx: vlib.Ctx):
     ctx.trusted += [
         "Hooks.v pack/unpack: hand-written model of the generated to_dict/from_dict control flow restricted to hook events "
         "(checked against the real hook log on every run); Python attribute lookup/dynamic dispatch, keyword TypeError, "
-        "try/except, dict.get are modelled, not verified",
+        "try/except, dict.get are modelled, not verified.  The method bodies (which hook lines, their order, the context "
+        "keyword, self rebound to the pre hook's result, one final return wrapped in the post hook, a Config discriminator "
+        "replacing the whole from_dict) are NOT hand-modelled any more: kernel K49 re-reads them from "
+        "CodeBuilder._add_pack_method_lines / _add_unpack_method_lines / get_declared_hook on every run and C19_K49_* prove "
+        "that they are Hooks.body / Hooks.dbody",
+        "tools/kernels/k49_hook_sites.py: path-by-path symbolic execution of the emitting statements (fail closed on any "
+        "statement that mentions a hook, emits a line or returns outside the recognised forms); HookSites.run_ps/run_us: the "
+        "meaning of a site list (Python evaluation order of `return self.__post_serialize__({...})`, rebinding of self); the "
+        "field emission block, the kwargs-vs-literal decision (K8's) and the encoder are parameters.  K49 itself is compared "
+        "on every run with the sites parsed from every method text the library exec's for the generated classes",
         "harness/c19lib.py: class-source generator, flattening of inherited fields/hooks/Config (independent re-statement "
         "of get_declared_hook), value/wire materialiser, event canonicaliser (uids), Coq term printer",
         "format libraries json/orjson/msgpack/yaml/tomli_w/tomllib only transport the dict (outputs are decoded and compared)",
@@ -717,6 +732,7 @@ def run(ctx: vlib.Ctx):
     ]
     # 1. theorems
     br = ctx.theorems("props/C19_hooks.vo", THEOREMS)
+    ctx.theorems("props/C19_sites.vo", SITE_THEOREMS, kernels=["K49"])
     if thorough_tier(ctx) and br.ok:
         # second opinion: the standalone checker re-checks the compiled library and its whole cone
         rc, out, secs = vlib.run(["timeout", "1500", "coqchk", "-o", "-silent", "-Q", "theories", "Verif", "-Q", "gen", "VerifGen",
@@ -741,6 +757,8 @@ def run(ctx: vlib.Ctx):
     t_lib = 0.0
 
     timeouts = [0]
+    recorder = S.Recorder()      # every method text the CodeBuilder exec's for a class of a generated schema
+    recorder.install()
 
     def do_schema(si, schema, roots):
         nonlocal t_lib
@@ -753,6 +771,7 @@ def run(ctx: vlib.Ctx):
             ctx.notes.append(f"schema {si} not constructible: {type(e).__name__}: {e}"[:300])
             ctx.hist("schemas", "not-constructible")
             return
+        recorder.schemas[mod.__name__] = schema
         L.check_module_orders(mod, schema)
         envs.append(L.coq_env(schema))
         ei = len(envs) - 1
@@ -870,6 +889,37 @@ def run(ctx: vlib.Ctx):
         root_ty = ["dc", len(schema["classes"]) - 1]
         do_schema(si, schema, [(root_ty, gen_value_capped(rng, schema, root_ty, schema["toml_safe"])) for _ in range(2)])
         si += 1
+
+    recorder.uninstall()
+
+    # 2a. correspondence kernel K49 vs the generated code: the sites parsed from every method text the library exec'd
+    #     for the classes above == K49.pack_sites / unpack_sites on the answers the builder gets for that class
+    pk_terms, uk_terms, site_wit, site_problems, n_methods = S.cases_of(recorder)
+    ctx.notes.append(f"K49 sites: {n_methods} generated methods parsed, {len(pk_terms)} distinct to_dict and "
+                     f"{len(uk_terms)} distinct from_dict (answers, sites) pairs")
+    ctx.hist("k49_sites", "generated methods parsed", n_methods)
+    if site_problems:
+        ctx.correspondence("c19_sites_parse", n_methods + len(site_problems), len(site_problems), json.dumps(site_problems[0])[:1500])
+        ctx.not_shown("correspondence c19_sites_parse",
+                      f"{len(site_problems)} generated methods are not of the shape K49 describes, first: {json.dumps(site_problems[0])[:1200]}")
+    for nm, terms, okf, cty in (("c19_sites_pack", pk_terms, S.PACK_OK, S.PACK_TYPE),
+                                ("c19_sites_unpack", uk_terms, S.UNPACK_OK, S.UNPACK_TYPE)):
+        if not terms:
+            ctx.correspondence(nm, 0, -1, "no generated method was recorded")
+            ctx.not_shown("correspondence " + nm, "no generated method was recorded (exec hook lost?)")
+            continue
+        sbad, slog = vlib.coq_bad_idx(nm, "Hooks HookSites", "From VerifGen Require Import K49.", "", terms, okf, cty,
+                                      needs=["theories/HookSites.vo", "gen/K49.vo"])
+        if sbad is None:
+            ctx.correspondence(nm, len(terms), -1, slog)
+            ctx.not_shown("correspondence " + nm, slog)
+        else:
+            detail = ""
+            if sbad:
+                detail = json.dumps({"case": terms[sbad[0]], "witness": site_wit.get(terms[sbad[0]])}, default=str)[:2500]
+            ctx.correspondence(nm, len(terms), len(sbad), detail)
+            if sbad:
+                ctx.not_shown("correspondence " + nm, f"{len(sbad)} (answers, sites) pairs differ from K49, first: {detail}")
 
     # 2. correspondence model vs implementation
     defs = "Local Open Scope nat_scope.\n" + "\n".join(f"Definition E{i} : env :=\n     {e}." for i, e in enumerate(envs)) + "\n"
